@@ -90,6 +90,8 @@ func main() {
 				fn.WriteTo(os.Stdout)
 			}
 		}
+	case "baseline":
+		os.Exit(eng.WriteBaseline(*verif))
 	case "check":
 		if fs.NArg() < 1 {
 			fatal(fmt.Errorf("check needs a property id"))
@@ -270,6 +272,7 @@ func (e *Engine) CheckProperty(prop, tier, verifDir string, verbose, writeEviden
 		seed, _ = strconv.Atoi(s)
 	}
 	known := loadKnownFindings(filepath.Join(verifDir, "known_findings.txt"))
+	baseline := loadBaseline(filepath.Join(verifDir, "baseline", "obligations.json"))
 	results := make([]*FnResult, len(keys))
 	var wg sync.WaitGroup
 	sem := make(chan struct{}, 12)
@@ -350,7 +353,13 @@ func (e *Engine) CheckProperty(prop, tier, verifDir string, verbose, writeEviden
 					viols = append(viols, viol{o, r})
 				}
 			default:
-				undecided = append(undecided, o.Name+": "+o.Raw)
+				if baseline[o.Name] {
+					// discharged on the unchanged tree (committed baseline), no longer accepted by the verifier
+					o.Raw = "discharged on the unchanged tree (baseline), not accepted now: " + o.Raw
+					viols = append(viols, viol{o, r})
+				} else {
+					undecided = append(undecided, o.Name+": "+o.Raw)
+				}
 			}
 		}
 		for _, u := range r.Unsupported {
@@ -468,4 +477,88 @@ func assumptionsFor(prop string) []string {
 
 func (e *Engine) tryReplay(fr *FnResult, o *Obligation, rep map[string]any, verifDir string) (bool, string) {
 	return replayObligation(e, fr, o, rep, verifDir)
+}
+
+func loadBaseline(path string) map[string]bool {
+	out := map[string]bool{}
+	data, err := os.ReadFile(path)
+	if err != nil {
+		return out
+	}
+	var names []string
+	if json.Unmarshal(data, &names) == nil {
+		for _, n := range names {
+			out[n] = true
+		}
+	}
+	return out
+}
+
+// WriteBaseline verifies every function under contract and records the names of all discharged obligations.
+func (e *Engine) WriteBaseline(verifDir string) int {
+	var keys []string
+	for _, k := range e.CS.sortedKeys() {
+		c := e.CS.Funcs[k]
+		if c.External || c.NoBody || c.Trusted {
+			continue
+		}
+		if e.Funcs[k] != nil {
+			keys = append(keys, k)
+		}
+	}
+	results := make([]*FnResult, len(keys))
+	var wg sync.WaitGroup
+	sem := make(chan struct{}, 12)
+	for i, k := range keys {
+		wg.Add(1)
+		go func(i int, k string) {
+			defer wg.Done()
+			sem <- struct{}{}
+			defer func() { <-sem }()
+			results[i] = e.VerifyFunction(e.Funcs[k], e.CS.Funcs[k])
+		}(i, k)
+	}
+	wg.Wait()
+	var names []string
+	bad := 0
+	for _, r := range results {
+		for _, o := range r.Obligations {
+			if o.Status == "discharged" {
+				names = append(names, o.Name)
+			} else {
+				bad++
+				fmt.Printf("not discharged: %s (%s)\n", o.Name, o.Status)
+			}
+		}
+	}
+	props := map[string]bool{}
+	for _, c := range e.CS.Funcs {
+		for p := range c.Props {
+			props[p] = true
+		}
+	}
+	for p := range props {
+		if lr := e.checkLemmas(p); lr != nil {
+			for _, o := range lr.Obligations {
+				if o.Status == "discharged" {
+					names = append(names, o.Name)
+				}
+			}
+		}
+	}
+	sort.Strings(names)
+	var uniq []string
+	for i, n := range names {
+		if i == 0 || n != names[i-1] {
+			uniq = append(uniq, n)
+		}
+	}
+	os.MkdirAll(filepath.Join(verifDir, "baseline"), 0o755)
+	b, _ := json.MarshalIndent(uniq, "", " ")
+	os.WriteFile(filepath.Join(verifDir, "baseline", "obligations.json"), b, 0o644)
+	fmt.Printf("baseline: %d functions, %d discharged obligations recorded, %d not discharged\n", len(keys), len(uniq), bad)
+	if bad > 0 {
+		return 1
+	}
+	return 0
 }
